@@ -79,6 +79,134 @@ def act : Fn → Kind → Act
   | .plu, .kron => .members .plu | .plu, .bdiag => .members .plu
   | _, _ => .self
 
+/-! ### the per-rule structure, hand-written from the source of the rules (round 2)
+
+Read off cola/linalg/inverse/inv.py, logdet/logdet.py, trace/diag_trace.py, unary/unary.py,
+decompositions/decompositions.py by hand; `Lemmas/SkeletonTie.lean` compares it FIELD BY FIELD with what
+the translator extracts from the AST of the live rules (`Gen/StructuralRules.lean: shapes_<f>`), and
+`act` above is DERIVED from it (`actOf`, theorem `act_derived`) — so `act`, and with it `dens` and
+`C19_rules`, is no longer a free-standing table. -/
+
+/-- one alternative of an argument: the `k`-th positional of the rule, or an expression of the class
+    with this (qualified) Python name -/
+inductive HAlt | param (k : Nat) | cls (name : String)
+deriving DecidableEq, Repr
+
+inductive HArg | whole | member | ilike | alts (as : List HAlt)
+deriving DecidableEq, Repr
+
+structure HShape where
+  /-- what the body touches of the operator (sorted; same vocabulary as `Structural.RuleShape.touch`) -/
+  touch : List String
+  /-- calls of dispatched functions of the family, in source order -/
+  calls : List (String × List HArg)
+deriving DecidableEq, Repr
+
+def HArg.p (k : Nat) : HArg := .alts [.param k]
+def HArg.c (n : String) : HArg := .alts [.cls n]
+
+/-- the rule a function has FOR a structured kind (none: no rule of its own) -/
+def kindRule : String → Kind → Option HShape
+  -- inv.py
+  | "inv", .eye => some ⟨["self"], []⟩
+  | "inv", .scalar => some ⟨["c"], []⟩
+  | "inv", .diagonal => some ⟨["diag"], []⟩
+  | "inv", .prod => some ⟨["Ms"], [("inv", [.member, .p 1])]⟩
+  | "inv", .bdiag => some ⟨["Ms", "multiplicities"], [("inv", [.member, .p 1])]⟩
+  | "inv", .kron => some ⟨["Ms"], [("inv", [.member, .p 1])]⟩
+  -- logdet.py
+  | "slogdet", .eye => some ⟨[], []⟩
+  | "slogdet", .scalar => some ⟨["c"], []⟩
+  | "slogdet", .diagonal => some ⟨["diag"], []⟩
+  | "slogdet", .prod => some ⟨["Ms"], [("slogdet", [.member, .p 1, .p 2])]⟩
+  | "slogdet", .kron => some ⟨["Ms"], [("slogdet", [.member, .p 1, .p 2])]⟩
+  | "slogdet", .bdiag => some ⟨["Ms", "multiplicities"], [("slogdet", [.member, .p 1, .p 2])]⟩
+  -- diag_trace.py
+  | "diag", .eye => some ⟨[], []⟩
+  | "diag", .diagonal => some ⟨["diag"], []⟩
+  | "diag", .scalar => some ⟨["I_like", "c"], [("diag", [.ilike, .p 1, .p 2])]⟩
+  | "diag", .sum => some ⟨["Ms"], [("diag", [.member, .p 1, .p 2])]⟩
+  | "diag", .bdiag => some ⟨["Ms", "multiplicities"], [("diag", [.member, .p 1, .p 2])]⟩
+  | "diag", .kron => some ⟨["Ms"], [("diag", [.member, .p 1, .p 2])]⟩
+  | "diag", .kronsum => some ⟨["Ms"], [("diag", [.member, .p 1, .p 2])]⟩
+  | "trace", .kron => some ⟨["Ms"], [("trace", [.member, .p 1])]⟩
+  -- unary.py
+  | "apply_unary", .diagonal => some ⟨["diag"], []⟩
+  | "apply_unary", .eye => some ⟨["scalarMul"], []⟩
+  | "apply_unary", .scalar => some ⟨["I_like", "c"], []⟩
+  | "apply_unary", .bdiag => some ⟨["Ms", "multiplicities"], [("apply_unary", [.p 0, .member, .p 2])]⟩
+  | "exp", .kronsum => some ⟨["Ms"], [("exp", [.member, .p 1])]⟩
+  | "pow", .kron => some ⟨["Ms"], [("pow", [.member, .p 1, .p 2])]⟩
+  -- decompositions.py
+  | "cholesky", .eye => some ⟨["self"], []⟩
+  | "cholesky", .diagonal => some ⟨[], [("sqrt", [.whole, .c "cola.linalg.algorithm_base.Auto"])]⟩
+  | "cholesky", .scalar => some ⟨[], [("sqrt", [.whole, .c "cola.linalg.algorithm_base.Auto"])]⟩
+  | "cholesky", .kron => some ⟨["Ms"], [("cholesky", [.member])]⟩
+  | "cholesky", .bdiag => some ⟨["Ms", "multiplicities"], [("cholesky", [.member])]⟩
+  | "plu", .eye => some ⟨["self"], []⟩
+  | "plu", .diagonal => some ⟨["I_like", "self"], []⟩
+  | "plu", .scalar => some ⟨["I_like", "self"], []⟩
+  | "plu", .kron => some ⟨["Ms"], [("plu", [.member])]⟩
+  | "plu", .bdiag => some ⟨["Ms", "multiplicities"], [("plu", [.member])]⟩
+  | _, _ => none
+
+/-- the rule for `LinearOperator` of the functions whose base rule is ONE algorithm-generic signature
+    that hands the operator on (`inv`, `slogdet`, `diag`, `apply_unary`, `cholesky`, `plu` have base
+    rules per algorithm class that end in dense / iterative code: none) -/
+def baseRule : String → Option HShape
+  | "trace" => some ⟨[], [("diag", [.whole, .c "int", .p 1])]⟩
+  | "exp" => some ⟨[], [("apply_unary", [.c "numpy.ufunc", .whole, .p 1])]⟩
+  | "log" => some ⟨[], [("apply_unary", [.c "numpy.ufunc", .whole, .p 1])]⟩
+  | "pow" => some ⟨["I_like", "lazyPower"],
+      [("inv", [.whole, .alts [.cls "cola.linalg.inverse.cg.CG", .cls "cola.linalg.inverse.gmres.GMRES",
+                               .cls "cola.linalg.decompositions.decompositions.Cholesky",
+                               .cls "cola.linalg.decompositions.decompositions.LU", .param 2]]),
+       ("apply_unary", [.c "function", .whole, .p 2])]⟩
+  | "sqrt" => some ⟨[], [("pow", [.whole, .c "float", .p 1])]⟩
+  | "isqrt" => some ⟨[], [("pow", [.whole, .c "float", .p 1])]⟩
+  | _ => none
+
+def Fn.ofPy : String → Option Fn
+  | "inv" => some .inv | "slogdet" => some .slogdet | "diag" => some .diag | "trace" => some .trace
+  | "apply_unary" => some .unary | "log" => some .unary | "exp" => some .exp
+  | "pow" => some .pow | "sqrt" => some .pow | "isqrt" => some .pow
+  | "cholesky" => some .chol | "plu" => some .plu
+  | _ => none
+
+def HShape.memberCalls (h : HShape) : List String :=
+  (h.calls.filter (fun c => c.2.contains .member)).map (·.1)
+def HShape.wholeCalls (h : HShape) : List String :=
+  (h.calls.filter (fun c => c.2.contains .whole)).map (·.1)
+
+/-- what a call `n(A)` on kind `k` does with the operator, DERIVED from the per-rule structure: a rule of
+    its own that calls `g` on the members → `members g`; that hands the operator on → follow the LAST
+    such call (the general branch: `pow` → `apply_unary`; the shortcut branch `pow → inv` is checked
+    separately by `forwardsStructural`); that does neither → `leaf`; no rule of its own → the base
+    rule, followed the same way; neither → `self`. -/
+def actOf : Nat → String → Kind → Act
+  | 0, _, _ => .self
+  | fuel + 1, n, k =>
+    let follow (h : HShape) : Act :=
+      match h.memberCalls.head? with
+      | some g => (match Fn.ofPy g with | some f => .members f | none => .self)
+      | none =>
+        match h.wholeCalls.getLast? with
+        | some g => actOf fuel g k
+        | none => .leaf
+    match kindRule n k with
+    | some h => follow h
+    | none =>
+      match baseRule n with
+      | some h => if h.wholeCalls.isEmpty then .self else follow h
+      | none => .self
+
+/-- every function a rule hands the whole operator to is itself structural on the kind -/
+def forwardsStructural (fuel : Nat) (n : String) (k : Kind) : Bool :=
+  let h? := match kindRule n k with | some h => some h | none => baseRule n
+  match h? with
+  | some h => h.wholeCalls.all fun g => actOf fuel g k != .self
+  | none => true
+
 /-- the dispatched functions whose rules `act f` describes (`log` shares the table of
 `apply_unary`, `sqrt` / `isqrt` that of `pow` with a non-integer exponent) -/
 def Fn.pyNames : Fn → List String
@@ -173,5 +301,171 @@ def prodSquareOK : Fn → Op R → Bool
 
 /-- `f` has a structural rule that applies to `A` -/
 def hasRule (f : Fn) (A : Op R) : Bool := act f (kindOf A) != .self && prodSquareOK f A
+
+/-! ## what `f(A)` ALLOCATES when the rules are followed (round 2)
+
+`ruleCost f A` = entries allocated while the (lazy) result of `f(A)` is built, by the same recursion as
+`dens`: a structural rule costs what it allocates ITSELF (`ownCost`) plus the cost of the calls on the
+members; a generic rule on a sub-operator `D` costs `cf f` dense copies of `D` (`genCost`).
+
+Constants, derived from the source of the rules (cola/linalg/…):
+* `ownW` — operand-sized VECTORS a structural rule allocates per member: `slogdet(Diagonal)` =
+  `abs`, `phase`, `log` (3); `diag(Kronecker | KronSum)` = the partial outer products, `diag(Sum)` the
+  partial sums, `diag(BlockDiag)` the concatenation, `diag(ScalarMul)` = ones and the product (all
+  ≤ one vector of the linear size per member, +1); `inv(Diagonal)`, `apply_unary(f, Diagonal)`,
+  `cholesky(Diagonal)` = one new diagonal; `plu`, the Kronecker / BlockDiag / Product rules of inv,
+  apply_unary, exp, pow, cholesky allocate containers only.  Scalars are covered by the `+ 4`.
+* `cf` — dense `m × m` arrays the generic rule allocates on an `m × m` factor: `inv` / `slogdet`
+  (`Auto` → LU: `to_dense` of a non-Dense factor, `L`, `U`, the permuted copy inside `scipy.linalg.lu`;
+  Cholesky: 2) = 5; `apply_unary` / `exp` / `pow` (`Eig`: `to_dense`, eigenvectors real and `astype(complex)`,
+  then `inv(V)` = LU of `V`: `L`, `U`, copy) = 7, (`Eigh`: `to_dense`, `V`) ≤ 7; `cholesky` = 2; `plu` = 4;
+  `diag` / `trace` (`Exact`: `A @ I` in blocks, the block of `I` and the product) = 3. -/
+
+/-- number of members of a node -/
+def arity : Op R → Nat
+  | prod Ms => Ms.length | sum Ms => Ms.length | kron Ms => Ms.length | kronsum Ms => Ms.length
+  | bdiag Ms _ => Ms.length | concat _ Ms => Ms.length
+  | annot _ A => arity A
+  | _ => 1
+
+def ownW : Fn → Nat
+  | .slogdet => 3 | _ => 1
+
+def cf : Fn → Nat
+  | .inv => 5 | .slogdet => 5 | .diag => 3 | .trace => 3 | .unary => 7 | .exp => 7 | .pow => 7
+  | .chol => 2 | .plu => 4
+
+/-- uniform bounds of the two constants -/
+def OW : Nat := 3
+def CF : Nat := 7
+
+/-- what the structural rule of `f` allocates itself at the node `A` -/
+def ownCost (f : Fn) (A : Op R) : Nat := ownW f * ((arity A + 1) * (A.vol + 4))
+
+/-- the generic (dense) rule of `f` on the whole of `D` -/
+def genCost (f : Fn) (D : Op R) : Nat := cf f * (D.rows * D.cols)
+
+/-- entries allocated while `f(A)` is built -/
+def ruleCost : Fn → Op R → Nat
+  | f, annot _ A => ruleCost f A
+  | f, kron Ms =>
+      match act f .kron with
+      | .leaf => ownCost f (kron Ms) | .self => genCost f (kron Ms)
+      | .members g => ownCost f (kron Ms) + (Ms.map (fun M => ruleCost g M)).sum
+  | f, kronsum Ms =>
+      match act f .kronsum with
+      | .leaf => ownCost f (kronsum Ms) | .self => genCost f (kronsum Ms)
+      | .members g => ownCost f (kronsum Ms) + (Ms.map (fun M => ruleCost g M)).sum
+  | f, bdiag Ms mults =>
+      match act f .bdiag with
+      | .leaf => ownCost f (bdiag Ms mults) | .self => genCost f (bdiag Ms mults)
+      | .members g => ownCost f (bdiag Ms mults) + (Ms.map (fun M => ruleCost g M)).sum
+  | f, prod Ms =>
+      match act f .prod with
+      | .leaf => ownCost f (prod Ms) | .self => genCost f (prod Ms)
+      | .members g =>
+          if !prodNeedsSquare f || allSquare Ms then ownCost f (prod Ms) + (Ms.map (fun M => ruleCost g M)).sum
+          else genCost f (prod Ms)
+  | f, sum Ms =>
+      match act f .sum with
+      | .leaf => ownCost f (sum Ms) | .self => genCost f (sum Ms)
+      | .members g => ownCost f (sum Ms) + (Ms.map (fun M => ruleCost g M)).sum
+  | f, transpose A =>
+      match act f .transpose with
+      | .leaf => ownCost f (transpose A) | .self => genCost f (transpose A)
+      | .members g => ownCost f (transpose A) + ruleCost g A
+  | f, adjoint A =>
+      match act f .adjoint with
+      | .leaf => ownCost f (adjoint A) | .self => genCost f (adjoint A)
+      | .members g => ownCost f (adjoint A) + ruleCost g A
+  | f, A@(eye _ _) => match act f .eye with | .leaf => ownCost f A | _ => genCost f A
+  | f, A@(scalar _ _ _) => match act f .scalar with | .leaf => ownCost f A | _ => genCost f A
+  | f, A@(diag _ _ _) => match act f .diagonal with | .leaf => ownCost f A | _ => genCost f A
+  | f, A@(dense _ _ _ _) => match act f .dense with | .leaf => ownCost f A | _ => genCost f A
+  | f, A@(tri _ _ _ _ _) => match act f .tri with | .leaf => ownCost f A | _ => genCost f A
+  | f, A@(perm _ _) => match act f .perm with | .leaf => ownCost f A | _ => genCost f A
+  | f, A@(sparse _ _ _ _) => genCost f A
+  | f, A@(tridiag _ _ _ _ _) => genCost f A
+  | f, A@(sliced _ _ _) => genCost f A
+  | f, A@(concat _ _) => genCost f A
+  | f, A@(house _ _ _ _) => genCost f A
+  | f, A@(generic _) => genCost f A
+
+/-- Σ of the dense sizes `rows · cols` of the FACTORS (the leaves of the structured part of the tree):
+    "the dense sizes of the individual factors" of the statement.  A node that no rule family looks
+    into (sliced, concatenated, no_dispatch wrapper, …) counts as one factor. -/
+def factorDense : Op R → Nat
+  | annot _ A => factorDense A
+  | kron Ms => (Ms.map (fun M => factorDense M)).sum
+  | kronsum Ms => (Ms.map (fun M => factorDense M)).sum
+  | bdiag Ms _ => (Ms.map (fun M => factorDense M)).sum
+  | prod Ms => (Ms.map (fun M => factorDense M)).sum
+  | sum Ms => (Ms.map (fun M => factorDense M)).sum
+  | transpose A => factorDense A
+  | adjoint A => factorDense A
+  | A@(eye _ _) => A.rows * A.cols
+  | A@(scalar _ _ _) => A.rows * A.cols
+  | A@(diag _ _ _) => A.rows * A.cols
+  | A@(dense _ _ _ _) => A.rows * A.cols
+  | A@(tri _ _ _ _ _) => A.rows * A.cols
+  | A@(perm _ _) => A.rows * A.cols
+  | A@(sparse _ _ _ _) => A.rows * A.cols
+  | A@(tridiag _ _ _ _ _) => A.rows * A.cols
+  | A@(sliced _ _ _) => A.rows * A.cols
+  | A@(concat _ _) => A.rows * A.cols
+  | A@(house _ _ _ _) => A.rows * A.cols
+  | A@(generic _) => A.rows * A.cols
+
+/-- Σ over the nodes of the structured part of the tree of `(arity + 1) · (linear size + 4)`: sums of
+    LINEAR sizes — no product of a row count with a column count occurs in it -/
+def linSize : Op R → Nat
+  | annot _ A => linSize A
+  | kron Ms => (Ms.length + 1) * ((kron Ms).vol + 4) + (Ms.map (fun M => linSize M)).sum
+  | kronsum Ms => (Ms.length + 1) * ((kronsum Ms).vol + 4) + (Ms.map (fun M => linSize M)).sum
+  | bdiag Ms mu => (Ms.length + 1) * ((bdiag Ms mu).vol + 4) + (Ms.map (fun M => linSize M)).sum
+  | prod Ms => (Ms.length + 1) * ((prod Ms).vol + 4) + (Ms.map (fun M => linSize M)).sum
+  | sum Ms => (Ms.length + 1) * ((sum Ms).vol + 4) + (Ms.map (fun M => linSize M)).sum
+  | transpose A => 2 * ((transpose A).vol + 4) + linSize A
+  | adjoint A => 2 * ((adjoint A).vol + 4) + linSize A
+  | A@(eye _ _) => 2 * (A.vol + 4)
+  | A@(scalar _ _ _) => 2 * (A.vol + 4)
+  | A@(diag _ _ _) => 2 * (A.vol + 4)
+  | A@(dense _ _ _ _) => 2 * (A.vol + 4)
+  | A@(tri _ _ _ _ _) => 2 * (A.vol + 4)
+  | A@(perm _ _) => 2 * (A.vol + 4)
+  | A@(sparse _ _ _ _) => 2 * (A.vol + 4)
+  | A@(tridiag _ _ _ _ _) => 2 * (A.vol + 4)
+  | A@(sliced _ _ _) => 2 * (A.vol + 4)
+  | A@(concat _ Ms) => (Ms.length + 1) * (A.vol + 4)
+  | A@(house _ _ _ _) => 2 * (A.vol + 4)
+  | A@(generic _) => 2 * (A.vol + 4)
+
+/-- the rules reach down to the factors: every composite node met along the recursion of `f(A)` has a
+    structural rule (so that `dens f A` consists of factors only) -/
+def deepRule : Fn → Op R → Bool
+  | f, annot _ A => deepRule f A
+  | f, kron Ms =>
+      match act f .kron with
+      | .leaf => true | .self => false | .members g => (Ms.map (fun M => deepRule g M)).all id
+  | f, kronsum Ms =>
+      match act f .kronsum with
+      | .leaf => true | .self => false | .members g => (Ms.map (fun M => deepRule g M)).all id
+  | f, bdiag Ms _ =>
+      match act f .bdiag with
+      | .leaf => true | .self => false | .members g => (Ms.map (fun M => deepRule g M)).all id
+  | f, prod Ms =>
+      match act f .prod with
+      | .leaf => true | .self => false
+      | .members g => (!prodNeedsSquare f || allSquare Ms) && (Ms.map (fun M => deepRule g M)).all id
+  | f, sum Ms =>
+      match act f .sum with
+      | .leaf => true | .self => false | .members g => (Ms.map (fun M => deepRule g M)).all id
+  | f, transpose A =>
+      match act f .transpose with
+      | .leaf => true | .self => false | .members g => deepRule g A
+  | f, adjoint A =>
+      match act f .adjoint with
+      | .leaf => true | .self => false | .members g => deepRule g A
+  | _, _ => true
 
 end Op
